@@ -874,6 +874,14 @@ impl World<Tok> {
     }
 }
 
+/// an iterator whose `size_hint` claims an exact length that need not be the true one
+pub struct Liar<I> { pub it: I, pub claim: usize }
+impl<I: Iterator> Iterator for Liar<I> {
+    type Item = I::Item;
+    fn next(&mut self) -> Option<I::Item> { self.it.next() }
+    fn size_hint(&self) -> (usize, Option<usize>) { (self.claim, Some(self.claim)) }
+}
+
 impl<E: Elem + Send + Sync> World<E> {
     /// `iter r variant pattern` for element types without identity (zero-sized ones): the same
     /// operation line as the token version; oracle: one item per element, and for the indexed
@@ -1379,7 +1387,12 @@ impl World<Tok> {
     /// `rows dst kind lens`: every conversion from rows
     pub fn rows(&mut self, out: &mut Out, dst: usize, kind: &str, lens: &[usize]) {
         let lens_s = if lens.is_empty() { "-".to_string() } else { lens.iter().map(|l| l.to_string()).collect::<Vec<_>>().join(",") };
-        let op = format!("rows {dst} {kind} {lens_s}");
+        // the kinds `iter_liar_*` go through `collect()` like `iter`, with iterators whose exact-looking
+        // `size_hint` is wrong (every row claims the first row's length; the row sequence claims one row
+        // more / fewer than it has): `size_hint` is advisory, the result must be that of honest iterators,
+        // and the operation line (and the model) see a plain `iter`
+        let line_kind = if kind.starts_with("iter_liar") { "iter" } else { kind };
+        let op = format!("rows {dst} {line_kind} {lens_s}");
         out.announce(&op);
         let mut next = 0usize;
         let rows: Vec<Vec<Tok>> = lens.iter().map(|&n| (0..n).map(|_| { next += 1; Tok::new(next.to_string()) }).collect()).collect();
@@ -1389,7 +1402,7 @@ impl World<Tok> {
         let want: Result<Ref, &str> = if uniform {
             let mut k = 0usize;
             Ok(Ref { nrows: lens.len(), ncols, rows: if ncols == 0 { Vec::new() } else { lens.iter().map(|&n| (0..n).map(|_| { k += 1; if borrowed { format!("{k}'") } else { k.to_string() } }).collect()).collect() } })
-        } else if kind == "iter" { Err("panic") } else { Err("err LengthInconsistent") };
+        } else if line_kind == "iter" { Err("panic") } else { Err("err LengthInconsistent") };
         fn arr<const C: usize>(row: Vec<Tok>) -> [Tok; C] { row.try_into().ok().unwrap() }
         fn from_arrays<const C: usize>(kind: &str, rows: Vec<Vec<Tok>>) -> matreex::Matrix<Tok> {
             let v: Vec<[Tok; C]> = rows.into_iter().map(arr::<C>).collect();
@@ -1426,6 +1439,9 @@ impl World<Tok> {
             "array_vec" => catch(|| from_array_of_vecs(rows)),
             "vec_vec" => catch(|| matreex::Matrix::try_from(rows)),
             "slice_vec" => catch(|| matreex::Matrix::try_from(rows.as_slice())),
+            "iter_liar_rows" => catch(|| Ok(rows.into_iter().map(|r| Liar { it: r.into_iter(), claim: ncols }).collect::<matreex::Matrix<Tok>>())),
+            "iter_liar_over" => { let n = rows.len(); catch(|| Ok(Liar { it: rows.into_iter(), claim: n }.collect::<matreex::Matrix<Tok>>())) }
+            "iter_liar_under" => { let n = rows.len(); catch(|| Ok(Liar { it: rows.into_iter(), claim: n.saturating_sub(2) }.collect::<matreex::Matrix<Tok>>())) }
             _ => catch(|| Ok(rows.into_iter().collect::<matreex::Matrix<Tok>>())),
         };
         out.count(&format!("rows:{}", if uniform { "uniform" } else { "ragged" }));
